@@ -219,6 +219,9 @@ func (i *input) lex() {
 					Text:      content.String(),
 				})
 			}
+			// The closing quote has been consumed; whatever follows it is
+			// lexed normally (it may start a comment or another string).
+			continue
 		default:
 			startLine := i.pos.line
 			var comment bytes.Buffer
@@ -229,27 +232,32 @@ func (i *input) lex() {
 					if i.eof() {
 						return
 					}
-					c := i.readRune()
-					comment.WriteRune(c)
-					if i.lang.NestedComments() && i.match(start) {
-						// Allows nested comments.
-						comment.WriteString(start)
-						nesting++
-					}
+					// Test for the delimiters before consuming a rune, so
+					// that an empty comment ("/**/") is terminated.
 					if i.match(end) {
 						if nesting > 0 {
 							comment.WriteString(end)
 							nesting--
-						} else {
-							break
+							continue
 						}
+						break
 					}
+					if i.lang.NestedComments() && i.match(start) {
+						// Allows nested comments.
+						comment.WriteString(start)
+						nesting++
+						continue
+					}
+					c := i.readRune()
+					comment.WriteRune(c)
 				}
 				i.comments = append(i.comments, &Comment{
 					StartLine: startLine,
 					EndLine:   i.pos.line,
 					Text:      comment.String(),
 				})
+				// The terminator has been consumed; do not skip the rune after it.
+				continue
 			} else if i.singleLineComment() { // Single line comment
 				for {
 					if i.eof() {
